@@ -3,7 +3,7 @@
 # usage: [BENIGN_CHECKS="10 17"] selftest/run_all_benign.sh [filter]   (each patch is applied to a scratch worktree of /repo HEAD under /tmp, removed afterwards)
 cd "$(dirname "$0")/.."
 rc=0
-for patch in selftest/benign/C*.diff; do
+for patch in selftest/benign/*.diff; do
   id=$(basename "$patch" .diff)
   [ -n "${1:-}" ] && [[ "$id" != *"$1"* ]] && continue
   WT=$(mktemp -d /tmp/ben-XXXXXX)
